@@ -99,7 +99,7 @@ func asmMethods() []asmgen.Method {
 	return asmMethodsCache
 }
 
-const (
+var (
 	asmGenPath  = verifDir + "/harness/asmgen/gen.go"
 	asmGen7Path = verifDir + "/harness/asmgen7/gen.go"
 	asmRegPath  = verifDir + "/harness/all/zz_asmgen.go"
@@ -136,8 +136,8 @@ func asmNativeOverlay(work string) string {
 	return of
 }
 
-const (
-	c06SymPath = "/repo/asm/zz_verif_c06.go"
+var (
+	c06SymPath = repoDir + "/asm/zz_verif_c06.go"
 	c06RegPath = verifDir + "/harness/all/zz_c06sym.go"
 )
 
@@ -235,10 +235,16 @@ func init() {
 				for mode := 0; mode < 5; mode++ {
 					js = append(js, job("c02", "Lockstep", fmt.Sprintf("c02/%s/%s", opName(op), modeNames[mode]), int64(op), int64(mode)))
 				}
+				// a CPU made with InitFrom from a live one (width setting varies with the opcode; thorough: all four)
+				for mode := 0; mode < 4; mode++ {
+					if tier == "thorough" || mode == op%4 {
+						js = append(js, job("c02", "Copy", fmt.Sprintf("c02/copied-cpu/%s/%s", opName(op), modeNames[mode]), int64(op), int64(mode)))
+					}
+				}
 			}
 			return js
 		},
-		Bounds:           []string{"one Step of each interpreter from one common arbitrary state: 256 opcodes x {4 native width settings, emulation mode}; all registers, hidden copies, D flag, stop latch, cycle counters, interrupt latch (none/NMI/IRQ) and 16 MiB memory symbolic", "any number of steps: by induction (equal post-states are a common pre-state again)"},
+		Bounds:           []string{"one Step of each interpreter from one common arbitrary state: 256 opcodes x {4 native width settings, emulation mode}; all registers, hidden copies, D flag, stop latch, cycle counters, interrupt latch (none/NMI/IRQ) and 16 MiB memory symbolic", "any number of steps: by induction (equal post-states are a common pre-state again)", "the same step on a cpualt CPU made with InitFrom from the live one (native mode, no pending interrupt), which must also leave the original untouched"},
 		Outside:          []string{"emulation mode with m=0 or x=0 (unreachable: XCE forces both)", "interrupt entry with the handler opcode inside the pushed stack frame (see assumptions)", "OnPC/OnWDM callbacks (C12)"},
 		Explanation:      "both real Step functions run on the same symbolic state and memory; every exported register/flag/counter, the return values, failure status and memory (extensional) are compared",
 		ConformanceQuick: 64, ConformanceThorough: 2048,
@@ -275,13 +281,15 @@ func init() {
 			var js []sym.Job
 			for _, sz := range sizes {
 				js = append(js, job("c09", "RoundTrip", fmt.Sprintf("c09/round-trip/size%#x", sz), int64(sz)))
+				js = append(js, job("c09", "TwoRounds", fmt.Sprintf("c09/two-rounds-on-one-object/size%#x", sz), int64(sz)))
+				js = append(js, job("c09", "Direct", fmt.Sprintf("c09/header-read-directly-at-position/size%#x", sz), int64(sz)))
 			}
 			for _, sz := range []int{0, 1, 0x7FB0, 0x7FFF} {
 				js = append(js, job("c09", "TooSmall", fmt.Sprintf("c09/too-small/size%#x", sz), int64(sz)))
 			}
 			return js
 		},
-		Bounds:           []string{"image sizes 0x8000, 0x8001, 0x10000 (thorough: + 0x20000, 0x400000); every byte of the image symbolic, so all 2^640 header contents and every detected version are covered by one run per size", "the field walker's loops have concrete trip counts (number of struct fields)"},
+		Bounds:           []string{"image sizes 0x8000, 0x8001, 0x10000 (thorough: + 0x20000, 0x400000); every byte of the image symbolic, so all 2^640 header contents and every detected version are covered by one run per size", "the field walker's loops have concrete trip counts (number of struct fields)", "one ROM object over time: read/write-back, the 80 header bytes replaced by other symbolic bytes, read/write-back again, and once more unchanged", "Header.ReadHeader called directly with a reader over the whole image positioned at the header"},
 		Outside:          []string{"image sizes other than the listed ones (the header offset is a constant; argued)", "headers located elsewhere than $7FB0 (the library only reads LoROM position)"},
 		Assumptions:      []string{"reflect (ValueOf/Elem/NumField/Field/CanInterface/CanAddr/Addr/Interface/Type) and encoding/binary.Read/Write are modelled by their documented contracts from go/types layouts; the walkers in header.go, version logic and bytes.Reader run for real"},
 		Explanation:      "real NewROM/ReadHeader/WriteHeader on a fully symbolic image; field placement compared with the SNES header layout (DESIGN Appendix C) byte by byte",
@@ -302,6 +310,12 @@ func init() {
 			for _, l := range [][3]int{{2, -1, -1}, {3, 2, -1}, {1, 0, 3}} {
 				js = append(js, job("c10", "Reads", fmt.Sprintf("c10/reads/banks130/%d,%d,%d", l[0], l[1], l[2]), 130, int64(l[0]), int64(l[1]), int64(l[2])))
 				js = append(js, job("c10", "Writes", fmt.Sprintf("c10/writes/banks130/%d,%d,%d", l[0], l[1], l[2]), 130, int64(l[0]), int64(l[1]), int64(l[2])))
+			}
+			for _, l := range [][2]int{{1, 1}, {2, 1}, {1, 3}, {3, 2}, {0, 2}} {
+				js = append(js, job("c10", "Handles", fmt.Sprintf("c10/handles/banks2/%d,%d", l[0], l[1]), 2, int64(l[0]), int64(l[1])))
+				if tier == "thorough" {
+					js = append(js, job("c10", "Handles", fmt.Sprintf("c10/handles/banks4/%d,%d", l[0], l[1]), 4, int64(l[0]), int64(l[1])))
+				}
 			}
 			for _, b := range banks {
 				for _, n := range []int{0, 1, 4} {
@@ -324,7 +338,7 @@ func init() {
 			}
 			return js
 		},
-		Bounds:           []string{"image of 2 (thorough also 4) banks with symbolic contents; bus address fully symbolic (bank inside the image); sequences of up to 3 reads or writes of 0-3 (thorough 0-5) bytes with symbolic data", "so every distance to the bank end (at, one before, beyond) is covered by the symbolic address"},
+		Bounds:           []string{"image of 2 (thorough also 4) banks with symbolic contents; bus address fully symbolic (bank inside the image); sequences of up to 3 reads or writes of 0-3 (thorough 0-5) bytes with symbolic data", "so every distance to the bank end (at, one before, beyond) is covered by the symbolic address", "two readers, then two writers, at two independent symbolic addresses of one ROM used alternately (2 rounds of 0-3 bytes each)"},
 		Outside:          []string{"banks outside the image (slicing fails loudly)", "longer operation sequences"},
 		Explanation:      "the harness applies the contract (window = file offset .. end of the 32 KiB bank) to its own copy of the image and compares counts, errors, delivered bytes and the whole image",
 		ConformanceQuick: 48, ConformanceThorough: 400,
@@ -336,10 +350,11 @@ func init() {
 			var js []sym.Job
 			for b := 0; b < 256; b++ {
 				js = append(js, job("c11", "Address", fmt.Sprintf("c11/address/bank%02x", b), int64(b)))
+				js = append(js, job("c11", "Long", fmt.Sprintf("c11/long-read/bank%02x", b), int64(b)))
 			}
 			return js
 		},
-		Bounds:           []string{"one read and one write at every 24-bit bus address (256 jobs, one per bank, the 16-bit offset symbolic), with fully symbolic contents of the ROM (16 MiB), WRAM and SRAM arrays", "the real CreateEmulator is executed by the engine (concrete loops); the 2^20-entry segment table is then split into its runs of identical backends and the address is case-split over them (feasibility by solver)"},
+		Bounds:           []string{"one read and one write at every 24-bit bus address (256 jobs, one per bank, the 16-bit offset symbolic), with fully symbolic contents of the ROM (16 MiB), WRAM and SRAM arrays", "the real CreateEmulator is executed by the engine (concrete loops); the 2^20-entry segment table is then split into its runs of identical backends and the address is case-split over them (feasibility by solver)", "the three-byte read EaRead24_wrap at every bank and symbolic offset compared with three single reads (device boundaries, bank wrap)"},
 		Outside:          []string{"addresses the console backs with hardware registers or leaves unmapped, and addresses the mapper reports unmapped (the property speaks about addresses both sides consider memory)"},
 		Exhaustive:       true,
 		Explanation:      "which array (if any) a bus write reaches is observed extensionally (array != its symbolic original); class and cell index are compared with lorom.BusAddressToPak",
@@ -354,7 +369,13 @@ func init() {
 			for cpu := 0; cpu < 2; cpu++ {
 				for op := 0; op < 256; op++ {
 					for mode := 0; mode < 5; mode++ {
-						js = append(js, job("c12", "StepLemma", fmt.Sprintf("c12/step-lemma/%s/%s/%s", cpuNames[cpu], opName(op), modeNames[mode]), int64(cpu), int64(op), int64(mode)))
+						js = append(js, job("c12", "StepLemma", fmt.Sprintf("c12/step-lemma/%s/%s/%s", cpuNames[cpu], opName(op), modeNames[mode]), int64(cpu), int64(op), int64(mode), -1))
+						// the same step delivering a pending NMI (2) or IRQ (3): quick tier for one width setting per opcode
+						if tier == "thorough" || mode == op%5 {
+							for intr := 2; intr <= 3; intr++ {
+								js = append(js, job("c12", "StepLemma", fmt.Sprintf("c12/step-lemma/%s/%s/%s/pending-%s", cpuNames[cpu], opName(op), modeNames[mode], []string{"nmi", "irq"}[intr-2]), int64(cpu), int64(op), int64(mode), int64(intr)))
+							}
+						}
 					}
 				}
 				js = append(js, job("c12", "ResetClearsStop", fmt.Sprintf("c12/reset/%s", cpuNames[cpu]), int64(cpu)))
@@ -372,7 +393,7 @@ func init() {
 			js = append(js, c12RunUntilJobs(tier)...)
 			return js
 		},
-		Bounds:           []string{"Step lemma: one Step, 2 interpreters x 256 opcodes x 5 mode settings, all state symbolic (direct-page alignment, page crossing, branch outcome, pending-interrupt latch included)", "callbacks: one Step with one registered program-counter callback at a symbolic address", "RunUntil: see the run-until jobs' own bounds (programs of at most K instructions from a fixed opcode alphabet, symbolic budget)"},
+		Bounds:           []string{"Step lemma: one Step, 2 interpreters x 256 opcodes x 5 mode settings, all state symbolic (direct-page alignment, page crossing, branch outcome, pending-interrupt latch included)", "callbacks: one Step with one registered program-counter callback at a symbolic address", "RunUntil: see the run-until jobs' own bounds (programs of at most K instructions from a fixed opcode alphabet, symbolic budget)", "the Step lemma also with a pending NMI or IRQ being delivered (quick: one width setting per opcode; thorough: all)"},
 		Outside:          []string{"runtime failures inside Step (C08)", "RunUntil for programs longer than the unrolling bound: follows from the Step lemma (cycles >= 1 makes the consumed-cycles counter strictly increasing) - argued, not solver-checked"},
 		Explanation:      "Step lemma and callback obligations are per-opcode solver queries over an arbitrary state; RunUntil is the real loop run symbolically over short programs",
 		ConformanceQuick: 64, ConformanceThorough: 1024,
@@ -398,7 +419,7 @@ func init() {
 		ID: "C06", Title: "Finalize resolves every label reference to the right target or reports an error", Level: "model_checking",
 		Patterns: []string{"verif/harness/c06", "github.com/alttpo/snes/asm"}, PermuteMaps: true, Overlay: c06Overlay, NativeOverlay: c06NativeOverlay,
 		Jobs:             c06Jobs,
-		Bounds:           []string{"programs of at most 7 emitter calls from the alphabet {Label L0/L1, relative branch to L0/L1 (all 7 branch methods), JMP_abs L0/L1, NOP, data block of 1,2,3,123..127 symbolic bytes}: every template in c06Jobs (forward/backward/multiple/missing/duplicate references, distances -130..+130 around both limits)", "base unset or any bank-contained 24-bit base (symbolic); data contents symbolic; every iteration order of the two label maps (<=3 entries) explored", "at most 2 labels and 3 references per label"},
+		Bounds:           []string{"programs of at most 7 emitter calls from the alphabet {Label L0/L1, relative branch to L0/L1 (all 7 branch methods), JMP_abs L0/L1, NOP, data block of 1,2,3,123..127 symbolic bytes}: every template in c06Jobs (forward/backward/multiple/missing/duplicate references, distances -130..+130 around both limits)", "base unset or any bank-contained 24-bit base (symbolic); data contents symbolic; every iteration order of the two label maps (<=3 entries) explored", "at most 2 labels and 3 references per label", "after a failed Finalize: a second call fails again; after defining every missing label (at the end of the program) the verdict and the operands are again those of the books; after success a second Finalize succeeds and changes nothing"},
 		Outside:          []string{"more than 2 labels / 3 references per label (the resolution loops repeat the same body - argued, not checked)", "the text of out-of-range error messages (contains symbolic addresses); only the failure itself is checked there"},
 		Explanation:      "the harness keeps its own books of reference and label positions while driving the public API, then compares Finalize's verdict and every byte of the result with them",
 		ConformanceQuick: 48, ConformanceThorough: 400,
@@ -417,9 +438,11 @@ func init() {
 					js = append(js, sym.Job{ID: fmt.Sprintf("c07/%s/%s", cpuNames[cpu], m.Name), Pkg: "verif/harness/asmgen7", Func: "C07_" + m.Name, Args: []int64{int64(cpu)}})
 				}
 			}
+			js = append(js, job("asmh7", "CloneAppendLemma", "c07/clone-append-keep-the-invariant/sep", 0))
+			js = append(js, job("asmh7", "CloneAppendLemma", "c07/clone-append-keep-the-invariant/rep", 1))
 			return js
 		},
-		Bounds:           []string{"inductive step: one emitter call (every straight-line instruction method, operands symbolic, tracked flags symbolic, any bank-contained base) followed by one CPU Step from a state whose K:PC equals the program counter the emitter reported and whose M/X equal the tracked widths; everything else in the CPU symbolic", "invariant carried along a program: Emitter.PC() == CPU K:PC and tracked (m,x) == CPU (M,X); REP/SEP with symbolic masks are ordinary steps", "conditional branches are run with the deciding flag set so that they are not taken (the statement excludes taken transfers)"},
+		Bounds:           []string{"inductive step: one emitter call (every straight-line instruction method, operands symbolic, tracked flags symbolic, any bank-contained base) followed by one CPU Step from a state whose K:PC equals the program counter the emitter reported and whose M/X equal the tracked widths; everything else in the CPU symbolic", "invariant carried along a program: Emitter.PC() == CPU K:PC and tracked (m,x) == CPU (M,X); REP/SEP with symbolic masks are ordinary steps", "conditional branches are run with the deciding flag set so that they are not taken (the statement excludes taken transfers)", "piecewise assembly: Clone starts at the parent's PC and widths, Append leaves the parent at the clone's PC and widths with the clone's bytes behind its own (lemma for the two non-emitting operations)"},
 		Outside:          []string{"JMP/JML/JSR/JSL/RTS/RTL/RTI/BRA/PLP (taken control transfers and flag restores: excluded by the statement)", "label-reference forms (same opcodes as the immediate branch forms; operands decided in C06)", "an AssumeREP/AssumeSEP that contradicts the CPU (a false statement by the caller)"},
 		Explanation:      "emitted bytes are copied into CPU memory at the emitter's base; after one real Step the CPU's next fetch address and width flags must equal the emitter's PC and tracked widths; conversely each immediate-operand method must be refused exactly on a width mismatch",
 		ConformanceQuick: 48, ConformanceThorough: 512,
@@ -462,7 +485,7 @@ func init() {
 			js = append(js, c19DataJobs(tier)...)
 			return js
 		},
-		Bounds:           []string{"one call of each instruction method (operands, tracked flags, base symbolic; listing on/off) on a buffer of capacity 0..4 (thorough 0..6) already holding 0..capacity bytes and one label", "data blocks of length 0-5, 16, 17 at capacities from 3 short to exact", "dry-run twin: the same calls on an emitter without a buffer; call sequences of up to 3 (thorough 4) calls from a fixed alphabet"},
+		Bounds:           []string{"one call of each instruction method (operands, tracked flags, base symbolic; listing on/off) on a buffer of capacity 0..4 (thorough 0..6) already holding 0..capacity bytes and one label", "data blocks of length 0-5, 16, 17 at capacities from 3 short to exact", "dry-run twin: the same calls on an emitter without a buffer; call sequences of up to 3 (thorough 4) calls from a fixed alphabet", "the prefix may be followed by a second SetBase (base changed mid-stream); after a refusal Finalize must succeed and change nothing", "dry-run sequences include a piece built in a Clone and appended, and a SetBase in mid-stream (8-entry alphabet)"},
 		Outside:          []string{"capacities above the listed ones (the capacity test is a single comparison that does not depend on magnitude - argued, not checked)"},
 		Explanation:      "refusal is observed with vp.Try around the real method; after a refusal Bytes/Len/PC/labels must equal their values before the call",
 		ConformanceQuick: 48, ConformanceThorough: 512,
@@ -496,7 +519,7 @@ func init() {
 			}
 			return js
 		},
-		Bounds:           []string{"bus and pak addresses: all 2^24 values each, 4 mappers", "loop-free implementation code; the oracle's table scan has a concrete trip count"},
+		Bounds:           []string{"bus and pak addresses: all 2^24 values each, 4 mappers", "loop-free implementation code; the oracle's table scan has a concrete trip count", "an accepted pak address must land, per the documented table, in a region of its own class"},
 		Outside:          []string{"addresses >= 2^24"},
 		Exhaustive:       true,
 		Explanation:      "implementation arithmetic vs. spec/cartmap (declarative transcription of the library's documented region tables, DESIGN Appendix B) for an arbitrary 24-bit address",
@@ -506,7 +529,7 @@ func init() {
 		ID: "C13", Title: "Bus routing follows Attach exactly and EaDump agrees with byte-wise reads", Level: "model_checking",
 		Patterns:         []string{"verif/harness/c13"},
 		Jobs:             c13Jobs,
-		Bounds:           []string{"up to three successful Attach calls with ranges drawn from 8 aligned ranges inside a 512-byte window (overlapping, adjacent, nested, re-attached, single-segment, with holes): all 9^3 layouts in the thorough tier, all 9^2 two-attach layouts plus a sample of three-attach ones in the quick tier", "routing: read and write address symbolic over the whole window; misaligned Attach: start and end fully symbolic 24-bit values", "EaDump: start anywhere in a chosen segment, end anywhere in a segment 0-3 (thorough 0-4) segments later (both low nibbles symbolic), every starting segment of the window that keeps the range inside it"},
+		Bounds:           []string{"up to three successful Attach calls with ranges drawn from 8 aligned ranges inside a 512-byte window (overlapping, adjacent, nested, re-attached, single-segment, with holes): all 9^3 layouts in the thorough tier, all 9^2 two-attach layouts plus a sample of three-attach ones in the quick tier", "routing: read and write address symbolic over the whole window; misaligned Attach: start and end fully symbolic 24-bit values", "EaDump: start anywhere in a chosen segment, end anywhere in a segment 0-3 (thorough 0-4) segments later (both low nibbles symbolic), every starting segment of the window that keeps the range inside it", "the three-byte read EaRead24_wrap at a symbolic address of the window for every layout of the routing jobs"},
 		Outside:          []string{"more than three Attach calls; windows other than $0F00-$10FF (the segment table is indexed uniformly; argued)", "dump ranges longer than 5 segments"},
 		Explanation:      "probe memories record every access (count, full address, value); the harness computes the owner of each 16-byte segment from the attach order and compares",
 		ConformanceQuick: 48, ConformanceThorough: 400,
@@ -526,7 +549,7 @@ func init() {
 			js = append(js, c14LoggerJobs(tier)...)
 			return js
 		},
-		Bounds:           []string{"one trace line per opcode x width setting x interpreter from an arbitrary native-mode state and memory (all registers, flags and operand bytes symbolic); the previous step's cycle count is fixed to one digit", "non-perturbation: the disassembler call from that arbitrary state; plus RunUntil with and without a Logger on the C12 program family"},
+		Bounds:           []string{"one trace line per opcode x width setting x interpreter from an arbitrary native-mode state and memory (all registers, flags and operand bytes symbolic); the previous step's cycle count is fixed to one digit", "non-perturbation: the disassembler call from that arbitrary state; plus RunUntil with and without a Logger on the C12 program family", "a run of 0, 1 or 3 NOPs up to the target traced through a reserving logger for any 64-bit cycle budget"},
 		Outside:          []string{"spacing and punctuation of the operand rendering (only required content is checked: bytes, mnemonic, operand digits high byte first, branch target, registers, flags)", "emulation mode", "cpualt's open-bus latch (not observable on a fully mapped bus)"},
 		Explanation:      "the line is parsed without branching on symbolic characters and compared with the pre-state and the 65816 opcode matrix (length, mnemonic, operand layout, branch target)",
 		ConformanceQuick: 64, ConformanceThorough: 1024,
@@ -536,7 +559,7 @@ func init() {
 		Solver: "z3-new", Fallbacks: []string{"cvc5"}, TimeoutQuickMs: 20000,
 		Patterns:         []string{"verif/harness/c15"},
 		Jobs:             c15Jobs,
-		Bounds:           []string{"call sequences of at most 2 (thorough 3) calls from a 15-entry alphabet: 1/2/3/4-byte instructions with symbolic operands, labels, label references (relative and absolute), comments of length 0,1,5,119,120,121,200,300, data blocks of 0,1,2,15,16,17,32,33 symbolic bytes; base unset or any bank-contained symbolic base; before and after Finalize", "listings parsed without branching on symbolic characters (punctuation is searched among concrete bytes only, hex digits decoded arithmetically)"},
+		Bounds:           []string{"call sequences of at most 2 (thorough 3) calls from a 15-entry alphabet: 1/2/3/4-byte instructions with symbolic operands, labels, label references (relative and absolute), comments of length 0,1,5,119,120,121,200,300, data blocks of 0,1,2,15,16,17,32,33 symbolic bytes; base unset or any bank-contained symbolic base; before and after Finalize", "listings parsed without branching on symbolic characters (punctuation is searched among concrete bytes only, hex digits decoded arithmetically)", "the same sequences assembled in pieces (Clone taken at call index 0 or 1, Append before the listings) and data blocks whose source is the front of the target buffer itself"},
 		Outside:          []string{"longer sequences (each listed line is rendered independently of the others; argued, not checked)", "mnemonic/operand rendering of text lines (not part of this property)", "label names longer than the listing's column width"},
 		Explanation:      "the harness records what it issued (kind, address, byte range) and walks WriteHexTo/WriteTextTo output with it",
 		ConformanceQuick: 48, ConformanceThorough: 400,
@@ -614,22 +637,12 @@ func c19DataJobs(tier string) []sym.Job {
 	}
 	n := 1
 	for i := 0; i < k; i++ {
-		n *= 6
+		n *= 8
 	}
 	for p := 0; p < n; p++ {
-		js = append(js, job("c19", "DrySequence", fmt.Sprintf("c19/dry-sequence/k%d/%0*d", k, k, toBase6(p, k)), int64(p), int64(k)))
+		js = append(js, job("c19", "DrySequence", fmt.Sprintf("c19/dry-sequence/k%d/%0*o", k, k, p), int64(p), int64(k)))
 	}
 	return js
-}
-
-func toBase6(p, k int) int {
-	r, mul := 0, 1
-	for i := 0; i < k; i++ {
-		r += (p % 6) * mul
-		mul *= 10
-		p /= 6
-	}
-	return r
 }
 
 // c06 op codes
@@ -749,6 +762,34 @@ func c15Jobs(tier string) []sym.Job {
 			}
 		}
 	}
+	// assembled in pieces (Clone at call index split, Append at the end), and data sourced from the target buffer
+	piece := func(ops []int, tbl, base, fin, split, alias int) {
+		var prog int64
+		name := ""
+		for i := len(ops) - 1; i >= 0; i-- {
+			prog = prog<<4 | int64(ops[i])
+		}
+		for _, o := range ops {
+			name += fmt.Sprintf("%x", o)
+		}
+		js = append(js, job("c15", "Pieces", fmt.Sprintf("c15/pieces/seq-%s/tbl%d/base%d/fin%d/split%d/alias%d", name, tbl, base, fin, split, alias), prog, int64(len(ops)), int64(tbl), int64(base), int64(fin), int64(split), int64(alias)))
+	}
+	for a := 1; a <= 15; a++ {
+		for b := 1; b <= 15; b++ {
+			if tier != "thorough" && (a*3+b)%4 != 0 {
+				continue
+			}
+			for split := 0; split <= 1; split++ {
+				piece([]int{a, b}, (a+b)%2, (a+split)%2, b%2, split, 0)
+			}
+		}
+		if a >= 12 {
+			for _, pre := range []int{1, 3, 4, 13} {
+				piece([]int{pre, a}, 0, a%2, 0, -1, 1)
+				piece([]int{pre, a}, 1, 1, 0, 1, 1)
+			}
+		}
+	}
 	if tier != "thorough" { // a few triples in the quick tier as well
 		for _, t := range [][]int{{5, 14, 6}, {6, 13, 5}, {2, 15, 3}, {7, 9, 5}, {12, 12, 12}, {4, 5, 7}, {14, 1, 14}, {3, 10, 15}} {
 			add(t, 0, 1, 1)
@@ -842,6 +883,7 @@ func c13Jobs(tier string) []sym.Job {
 	}
 	for _, l := range layouts {
 		js = append(js, job("c13", "Route", fmt.Sprintf("c13/route/layout%03d", toBase9(l)), int64(l)))
+		js = append(js, job("c13", "Route24", fmt.Sprintf("c13/route24/layout%03d", toBase9(l)), int64(l)))
 	}
 	for _, l := range []int{0, 1, 4, 1 + 9*3, 2 + 9*4 + 81*5} {
 		js = append(js, job("c13", "Misaligned", fmt.Sprintf("c13/misaligned/layout%03d/any-24-bit-range", toBase9(l)), int64(l), -1, -1))
@@ -887,6 +929,9 @@ func c14LoggerJobs(tier string) []sym.Job {
 		long = 600
 	}
 	js = append(js, job("c14", "LoggerLongRun", fmt.Sprintf("c14/logger-long-run/budget<=%d", long), int64(long)))
+	for _, n := range []int{0, 1, 3} {
+		js = append(js, job("c14", "LoggerAnyBudget", fmt.Sprintf("c14/logger-any-64-bit-budget/nops%d", n), int64(n)))
+	}
 	for p := 0; p < n; p++ {
 		js = append(js, job("c14", "LoggerOnOff", fmt.Sprintf("c14/logger-on-off/k%d/prog%04o/budget<=%d", k, p, budget), int64(p), int64(k), int64(budget)))
 	}
